@@ -79,6 +79,7 @@ v_out() { # stdout | file
   esac
 }
 v_stamp() { printf %s "$RV_ACC" | redo-stamp; }
+v_stamp_gated() { { v_work "$1"; printf %s "$RV_ACC"; } | redo-stamp; }
 v_usermod() { # the "user" replaces the target by hand while its build runs (only while the harness flag exists)
   _f=$(printf %s "$RV_T" | tr / _)
   if [ -e "$RV_CTL/usermod.$_f" ]; then
